@@ -2,6 +2,7 @@ package main
 
 import (
 	"fmt"
+	"go/token"
 	"regexp"
 	"strings"
 
@@ -57,6 +58,66 @@ func init() {
 			dh := w.callStr(seq[2].(ssa.CallInstruction))
 			c.Check(strings.Contains(lo, "sort32(") && strings.Contains(lo, "#0[:]") && strings.Contains(hi, "sort32(") && strings.Contains(hi, "#1[:]"), fk+" :: both sorted ephemeral public keys are bound", w.ipos(seq[0]), "lo, hi from sort32(local, remote)", lo+" ; "+hi)
 			c.Check(strings.Contains(dh, "computeDHSecret(") && strings.Contains(dh, "#0[:]"), fk+" :: DH secret is bound", w.ipos(seq[2]), "dhSecret appended", dh)
+		}
+		// sort32 hands back its two arguments, each exactly once, in either order (also when it hands out
+		// copies): otherwise one ephemeral key is bound twice and the other not at all
+		if g := c.fn("p2p/conn", "sort32"); g != nil && len(g.Params) == 2 {
+			src := func(v ssa.Value) ssa.Value { // follow "copy := *p; return &copy"
+				for i := 0; i < 4; i++ {
+					a, ok := v.(*ssa.Alloc)
+					if !ok {
+						return v
+					}
+					var st *ssa.Store
+					n := 0
+					for _, r := range *a.Referrers() {
+						if x, ok := r.(*ssa.Store); ok && x.Addr == ssa.Value(a) {
+							st, n = x, n+1
+						}
+					}
+					ld, isLd := (ssa.Value)(nil), false
+					if n == 1 {
+						if u, ok := st.Val.(*ssa.UnOp); ok && u.Op == token.MUL {
+							ld, isLd = u.X, true
+						}
+					}
+					if !isLd {
+						return v
+					}
+					v = ld
+				}
+				return v
+			}
+			okPerm, nret := true, 0
+			for _, r := range returnsOf(g) {
+				ret := r.(*ssa.Return)
+				if len(ret.Results) != 2 {
+					okPerm = false
+					continue
+				}
+				nret++
+				lo, hi := src(ret.Results[0]), src(ret.Results[1])
+				lp, lIsPhi := lo.(*ssa.Phi)
+				hp, hIsPhi := hi.(*ssa.Phi)
+				pairs := [][2]ssa.Value{}
+				switch {
+				case lIsPhi && hIsPhi && lp.Block() == hp.Block():
+					for i := range lp.Edges {
+						pairs = append(pairs, [2]ssa.Value{src(lp.Edges[i]), src(hp.Edges[i])})
+					}
+				case !lIsPhi && !hIsPhi:
+					pairs = append(pairs, [2]ssa.Value{lo, hi})
+				default:
+					okPerm = false
+				}
+				for _, p := range pairs {
+					a, b := p[0], p[1]
+					if !((a == ssa.Value(g.Params[0]) && b == ssa.Value(g.Params[1])) || (a == ssa.Value(g.Params[1]) && b == ssa.Value(g.Params[0]))) {
+						okPerm = false
+					}
+				}
+			}
+			c.Check(okPerm && nret > 0, funcKey(g)+" :: returns its two arguments, each once", w.pos(g.Pos()), "{lo, hi} = {foo, bar} on every path", "sort32 can return the same key twice or something else than its arguments: one ephemeral key is then not bound into the challenge")
 		}
 		// challenge copied from the extraction; signed and verified value is the same challenge
 		for _, call := range w.callsTo(f, "p2p/conn#signChallenge") {
@@ -216,6 +277,27 @@ func init() {
 		c.Check(c.ge().ensures(f, guardAny("dialled id equals the authenticated id (when dialling)", guardCmp("a", connID, "==", `dialedAddr\.ID`), guardRe("b", `^nil\(dialedAddr\)$`)), 2), fk+" ensures dialled id = connection id", w.pos(f.Pos()), "guarded", "an outbound connection is accepted although the peer authenticated as someone else than dialled")
 		c.Check(c.ge().ensures(f, guardCmp("node info id equals the authenticated id", connID, "==", `.*\.ID\(\)`), 2), fk+" ensures node-info id = connection id", w.pos(f.Pos()), "guarded", "a peer can claim another node id in its node info")
 		c.Check(c.ge().ensures(f, guardRe("node info validated", `^nil\(.*\.Validate\(\)\)$`), 2), fk+" ensures node info Validate() = nil", w.pos(f.Pos()), "guarded", "node info is not validated")
+		// the dialled-id comparison is skipped for a nil address: only the accept path may pass nil, a dial
+		// always passes the address it dialled (non-nil by construction: the address of its own parameter)
+		k := newKeyer()
+		nUp := 0
+		for _, cs := range w.callersOf(f) {
+			g := outermost(cs.Parent())
+			if strings.HasSuffix(w.Fset.Position(cs.Pos()).Filename, "_test.go") {
+				continue
+			}
+			nUp++
+			arg := cs.Common().Args[len(cs.Common().Args)-1]
+			dials := len(w.callsMatching(g, `\.dial\(|\.Dial(Timeout|Context)?\(`)) > 0 || strings.Contains(g.Name(), "Dial")
+			switch {
+			case isNilConst(arg):
+				c.Check(!dials, k.key(g, "upgrade without a dialled address only on the accept path"), w.ipos(cs), "inbound connection", "an outbound connection is upgraded without the dialled address: the peer's key is not compared with the dialled id")
+			default:
+				_, isAlloc := stripConv(arg).(*ssa.Alloc)
+				c.Check(isAlloc, k.key(g, "upgrade of a dialled connection always carries the dialled address"), w.ipos(cs), "address of the dialled NetAddress", "the dialled address handed to upgrade can be nil ("+w.expr(arg)+"): the peer's key is then not compared with the dialled id")
+			}
+		}
+		c.Check(nUp >= 2, fk+" :: callers found (dial and accept)", w.pos(f.Pos()), ">= 2", fmt.Sprintf("%d", nUp))
 	})
 }
 
